@@ -13,6 +13,7 @@
  * Extra lines of this driver (ignored by engine_driver.cpp, which skips unknown scenario lines):
  *   force <k> <0|1>     task k completes with force_change = <b>
  *   idbase <n>          input ids passed to llb_buildengine_task_needs_input are n + slot (events print id - n)
+ *   ids <k> <a,b,...>   rule k passes input id a for slot 0, b for slot 1, ... (decimal; remaining slots: idbase + slot); events print the slot
  *   rulekey <0|1>       1: lookup_rule fills llb_rule_t.key with a key different from the one looked up (the binding ignores it)
  *   shape <k> <n>       the value rule k completes with: 0 the 16-byte encoding, 1 EMPTY (length 0), 2 one byte, 3 all NUL (1..20 bytes),
  *                       4 4096 bytes; validret <k> <0|1>: is_result_valid of rule k answers (stamp still current) && <b>;
@@ -51,6 +52,8 @@ static unsigned char* g_name[MAXK]; static size_t g_namelen[MAXK]; static int g_
 static int g_force[MAXK], g_shape[MAXK], g_validret[MAXK], g_hex = 0;
 #define MAXV 4096
 static uint64_t g_idbase = 0;
+#define MAXIDS 16
+static uint64_t g_ids[MAXK][MAXIDS]; static int g_nids[MAXK];
 static int g_rulekey = 0;
 static pthread_mutex_t g_out = PTHREAD_MUTEX_INITIALIZER;
 static int g_quiet = 0, g_in_build = 0, g_trace = 0;
@@ -195,7 +198,7 @@ static void* thread_main(void* a) { Pending* p = a; usleep(p->us); finish(p); fr
 
 /* ---- tasks */
 typedef struct {
-  int k; RuleDef d; int nslots; Val slots[2 * MAXL]; int slotkey[2 * MAXL]; int branched;
+  int k; RuleDef d; int nslots; Val slots[2 * MAXL]; int slotkey[2 * MAXL]; uint64_t slotid[2 * MAXL]; int branched;
 } TaskCtx;
 static void check_ctx(void* engine_context, const char* where) { if (engine_context != g_cur_ctx) ev("BAD-ENGINE-CONTEXT %s", where); }
 
@@ -204,8 +207,10 @@ static void treq(TaskCtx* t, llb_task_interface_t ti, int key) {
   if (id >= 2 * MAXL) { ev("TOO-MANY-SLOTS %d", t->k); return; }
   t->slots[id].empty = 1; t->slots[id].p = t->slots[id].s = 0; t->slotkey[id] = key; t->nslots++;
   llb_data_t kd = kname(key, b);
-  raw("call-needs_input", t->k, &kd, "%llu", (unsigned long long)(g_idbase + (uint64_t)id));
-  llb_buildengine_task_needs_input(ti, &kd, (uintptr_t)(g_idbase + (uint64_t)id));
+  uint64_t cid = (t->k >= 0 && t->k < MAXK && id < g_nids[t->k]) ? g_ids[t->k][id] : g_idbase + (uint64_t)id;
+  t->slotid[id] = cid;
+  raw("call-needs_input", t->k, &kd, "%llu", (unsigned long long)cid);
+  llb_buildengine_task_needs_input(ti, &kd, (uintptr_t)cid);
 }
 static void t_start(void* context, void* engine_context, llb_task_interface_t ti) {
   TaskCtx* t = context; char b[32];
@@ -222,6 +227,7 @@ static void t_provide(void* context, void* engine_context, llb_task_interface_t 
   TaskCtx* t = context; char s[2 * MAXV + 48];
   check_ctx(engine_context, "provide_value");
   uint64_t id = (uint64_t)input_id - g_idbase;
+  for (int i = 0; i < t->nslots; i++) if (t->slotid[i] == (uint64_t)input_id) { id = (uint64_t)i; break; }
   raw("cb-provide_value", t->k, value, "%llu", (unsigned long long)input_id);
   vs(value->data, value->length, s);
   /* the C callback does not receive the key: it is recovered from the slot this driver requested */
@@ -416,6 +422,10 @@ int main(int argc, char** argv) {
     } else if (strcmp(t[0], "set") == 0 && nt >= 3) { int k = atoi(t[1]); if (k >= 0 && k < MAXK) g_env[k] = strtoull(t[2], 0, 10); }
     else if (strcmp(t[0], "force") == 0 && nt >= 3) { int k = atoi(t[1]); if (k >= 0 && k < MAXK) g_force[k] = atoi(t[2]); }
     else if (strcmp(t[0], "idbase") == 0 && nt >= 2) g_idbase = strtoull(t[1], 0, 10);
+    else if (strcmp(t[0], "ids") == 0 && nt >= 3) {
+      int k = atoi(t[1]); if (k >= 0 && k < MAXK) { g_nids[k] = 0; const char* s = t[2];
+        while (*s && g_nids[k] < MAXIDS) { if (*s == ',') { s++; continue; } g_ids[k][g_nids[k]++] = strtoull(s, 0, 10); while (*s && *s != ',') s++; } }
+    }
     else if (strcmp(t[0], "shape") == 0 && nt >= 3) { int k = atoi(t[1]); if (k >= 0 && k < MAXK) g_shape[k] = atoi(t[2]); }
     else if (strcmp(t[0], "validret") == 0 && nt >= 3) { int k = atoi(t[1]); if (k >= 0 && k < MAXK) g_validret[k] = atoi(t[2]); }
     else if (strcmp(t[0], "hexvalues") == 0 && nt >= 2) g_hex = atoi(t[1]);
